@@ -284,8 +284,8 @@ type c12Gen struct {
 	others []int      // sizes of ltsv/jsonl files
 }
 
-func (g *c12Gen) bigT() c12Table   { return g.big[g.r.Intn(len(g.big))] }
-func (g *c12Gen) smallT() c12Table { return g.small[g.r.Intn(len(g.small))] }
+func (g *c12Gen) bigT() c12Table           { return g.big[g.r.Intn(len(g.big))] }
+func (g *c12Gen) smallT() c12Table         { return g.small[g.r.Intn(len(g.small))] }
 func (g *c12Gen) pick(xs ...string) string { return xs[g.r.Intn(len(xs))] }
 
 func (g *c12Gen) pred(alias string) string {
@@ -367,6 +367,7 @@ func (g *c12Gen) program(class string) c12Program {
 		p.SQL = fmt.Sprintf("SELECT a.id, b.id, b.f FROM %s a %s %s b ON a.v = b.v AND a.k = b.k", t.Name, g.pick("JOIN", "LEFT JOIN", "RIGHT JOIN", "FULL JOIN"), b.Name)
 	case "lateral":
 		b := g.smallT()
+		p.Stream = "subquery-outer-cache"
 		p.Tables = []string{t.Name, b.Name}
 		p.SQL = fmt.Sprintf("SELECT a.id, x.c, x.m FROM %s a CROSS JOIN LATERAL (SELECT COUNT(*) AS c, MAX(b.v) AS m FROM %s b WHERE b.k = a.k AND b.v < a.v) x", t.Name, b.Name)
 	case "subquery":
@@ -376,10 +377,18 @@ func (g *c12Gen) program(class string) c12Program {
 		case 0:
 			p.SQL = fmt.Sprintf("SELECT id, v FROM %s WHERE v IN (SELECT v FROM %s WHERE %s)", t.Name, b.Name, g.pred(""))
 		case 1:
+			p.Stream = "subquery-outer-cache"
 			p.SQL = fmt.Sprintf("SELECT a.id FROM %s a WHERE EXISTS (SELECT 1 FROM %s b WHERE b.v = a.v AND b.k = a.k)", t.Name, b.Name)
 		default:
+			p.Stream = "subquery-outer-cache"
 			p.SQL = fmt.Sprintf("SELECT a.id, (SELECT COUNT(*) FROM %s b WHERE b.k = a.k) AS c FROM %s a WHERE %s", b.Name, t.Name, g.pred("a"))
 		}
+	case "subquery-many-refs":
+		// several references to the outer record from an inner query that is itself split over
+		// goroutines: the outer record's field-index cache is shared by them (F-C13-4)
+		p.Stream = "subquery-outer-cache"
+		p.Tables = []string{"s40", t.Name}
+		p.SQL = fmt.Sprintf("SELECT a.id, (SELECT COUNT(*) FROM %s b WHERE b.v = a.v OR b.k = a.k OR b.id = a.id OR b.s = a.s OR b.f = a.f OR b.n = a.n) AS c FROM s40 a", t.Name)
 	case "analytic":
 		fn := g.pick("ROW_NUMBER() OVER (PARTITION BY k ORDER BY v, id)", "RANK() OVER (PARTITION BY k ORDER BY v)", "DENSE_RANK() OVER (ORDER BY k)",
 			"SUM(v) OVER (PARTITION BY k)", "AVG(f) OVER (PARTITION BY s)", "LAG(v) OVER (PARTITION BY k ORDER BY id)", "FIRST_VALUE(id) OVER (PARTITION BY n ORDER BY v, id)",
@@ -523,6 +532,9 @@ func firstDiff(a, b string) string {
 // classify the difference between the baseline and another run of the same program
 func c12Diff(p c12Program, base, o c12Obs) (key string, detail string) {
 	if base.Code != o.Code || base.Timed != o.Timed {
+		if p.Stream == "subquery-outer-cache" && base.Code == 0 && (strings.Contains(o.Stderr, "concurrent map") || strings.Contains(o.Stderr, "Fatal Error") || strings.Contains(o.Stderr, "unexpected error")) {
+			return "subquery-outer-cache-crash", fmt.Sprintf("internal failure in one run only: %s", clip(o.Stderr, 160))
+		}
 		return "nondeterministic:" + p.Class + ":exit-code", fmt.Sprintf("exit code %d vs %d (stderr %q vs %q)", base.Code, o.Code, clip(base.Stderr, 200), clip(o.Stderr, 200))
 	}
 	if base.Stdout != o.Stdout {
@@ -613,7 +625,7 @@ func runC12(seed int64, tier string, out string) {
 		c12WriteOtherFormats(master.Dir, s, seed*1000+200+int64(i))
 	}
 
-	classes := []string{"where", "where-error", "order", "distinct", "aggregate-all", "group-ordered", "group-ordered-incomparable", "group", "join", "join", "join-big", "lateral", "subquery",
+	classes := []string{"where", "where-error", "order", "distinct", "aggregate-all", "group-ordered", "group-ordered-incomparable", "group", "join", "join", "join-big", "lateral", "subquery", "subquery-many-refs",
 		"analytic", "analytic", "setop", "ltsv", "jsonl", "insert-select", "update", "delete", "create-as", "alter-add", "mixed", "replace-one", "replace"}
 	rounds, reps := 6, 3
 	if tier == "thorough" {
